@@ -60,6 +60,14 @@ def t2(run: Run, prog: Program):
         init = C.methods.get("__init__")
         if init is not None:
             _t2_defuse(run, C, init, M, prog)
+        # private helpers of the class that (re-)create the network
+        for name, f in sorted(C.methods.items()):
+            if name.startswith("_") and not name.startswith("__") and \
+                    f.kind == "method" and any(
+                        isinstance(n_, ast.Call) and
+                        ast.unparse(n_.func) == "Network.__init__"
+                        for n_ in ast.walk(f.node)):
+                _t2_defuse(run, C, f, M, prog)
         for name, f in sorted(prog.all_methods(C).items()):
             if f.kind != "method" or name.startswith("_") or f.cached:
                 continue
